@@ -1,4 +1,5 @@
 import H2V.Model.Basic
+import H2V.Model.HttpTypes
 import H2V.Model.ConnFlow
 /-
   Connection-level model, part 2 — mirror of `src/proto/streams/state.rs` (+ `proto::Error`,
@@ -42,7 +43,7 @@ def PErr.isLocal : PErr → Bool
 
 def PErr.libraryReset (sid : Nat) (r : Reason) : PErr := .reset sid r .library
 def PErr.libraryGoAway (r : Reason) : PErr := .goAway [] r .library
-def PErr.libraryGoAwayData (r : Reason) (d : String) : PErr := .goAway (d.toUTF8.toList.map (·.toNat)) r .library
+def PErr.libraryGoAwayData (r : Reason) (d : String) : PErr := .goAway (Model.Http.str d) r .library
 def PErr.remoteReset (sid : Nat) (r : Reason) : PErr := .reset sid r .remote
 def PErr.remoteGoAway (d : Bytes) (r : Reason) : PErr := .goAway d r .remote
 def PErr.userGoAway (r : Reason) : PErr := .goAway [] r .user
@@ -177,15 +178,18 @@ def recvReset (s : State) (sid : Nat) (reason : Reason) (queued : Bool) : State 
 
 /-- `State::handle_error` -/
 def handleError (s : State) (err : PErr) : State :=
+  let recvEndStream := s.isRecvEndStream
   match s.inner with
   | closed _ => s
-  | _ => { inner := closed (.error err) }
+  | _ => { inner := closed (if recvEndStream then .errorAfterEndStream err else .error err) }
 
 /-- `State::recv_eof` -/
 def recvEof (s : State) : State :=
+  let recvEndStream := s.isRecvEndStream
+  let err : PErr := .io "BrokenPipe" (some "stream closed because of a broken pipe")
   match s.inner with
   | closed _ => s
-  | _ => { inner := closed (.error (.io "BrokenPipe" (some "stream closed because of a broken pipe"))) }
+  | _ => { inner := closed (if recvEndStream then .errorAfterEndStream err else .error err) }
 
 /-- `State::send_close`; `none` is the `panic!("send_close: unexpected state")` -/
 def sendClose (s : State) : Option State :=
